@@ -142,6 +142,8 @@ def redact_spec():
         lines.append('    @%s' % nm)
         lines.append('alias Qst%s = String?' % nm)       # redacted alias whose target is nullable
         lines.append('    @%s' % nm)
+        lines.append('alias Out%s = Str%s' % (nm, nm))    # unannotated alias of a redacted alias: the redactor is inherited
+        lines.append('alias Far%s = Out%s' % (nm, nm))    # ... over two links
     lines.append('alias Plainstr = String')
     lines.append('')
     lines.append('struct Base')
@@ -163,7 +165,7 @@ def redact_spec():
             lines.append('        @%s' % nm)
             fields.append((fname, ttext, kind, rx, 'own'))
     for nm, ctor, kind, rx in REDACTORS:
-        for base in ('Str', 'Num', 'Lst', 'Ali', 'Qst'):
+        for base in ('Str', 'Num', 'Lst', 'Ali', 'Qst', 'Out', 'Far'):
             for ukey, upat in ALIAS_USES:
                 if base == 'Lst' and ukey in ('deep',):
                     continue
